@@ -309,6 +309,45 @@ impl<'a> Walk<'a> {
         self.handle_events(ctx, rng, &[], None);
     }
 
+    /// One scripted request/response exchange (used to reach a given credential state in a
+    /// known number of operations). kind: 0 = 401 challenge, 1 = acceptable response, 2 = 438.
+    /// Returns the events of the delivery.
+    pub fn scripted_exchange(&mut self, ctx: &mut Ctx, rng: &mut Rng, kind: u8, algs: u8, anonymity: bool) -> Vec<Ev> {
+        let method = 1u16;
+        let (attrs, desc) = app_attrs(rng, 2);
+        let r = self.sim.send_request(ctx, method, attrs, &desc, 2048);
+        let OpResult::Sent(id) = r else { return vec![] };
+        let bytes = self.sim.txs[self.sim.index[&id]].first_bytes.clone();
+        self.resp.observe_request(&bytes);
+        self.requests_seen += 1;
+        let mut pkt = Packet { at: self.sim.now, bytes: vec![], label: String::new(), lt_on_retry: None, nonce_on_retry: None };
+        match kind {
+            0 => {
+                let cookie = rng.bool();
+                let (b, st) = self.resp.challenge(rng, &id, method, algs, anonymity, cookie, false);
+                pkt.bytes = b;
+                pkt.lt_on_retry = Some(st);
+                pkt.label = "scripted-401".into();
+            }
+            2 => match { let wi = rng.bool(); self.resp.stale(&id, method, wi) } {
+                Some((b, nonce)) => {
+                    pkt.bytes = b;
+                    pkt.nonce_on_retry = Some(nonce);
+                    pkt.label = "scripted-438".into();
+                }
+                None => return vec![],
+            },
+            _ => {
+                pkt.bytes = self.resp.good(&id, method, None, self.st_prefer_sha);
+                pkt.label = "scripted-good".into();
+            }
+        }
+        self.sim.now += 1_000 + rng.below(5_000_000);
+        let (_, evs) = self.sim.recv(ctx, &pkt.label.clone(), &pkt.bytes.clone());
+        self.handle_events(ctx, rng, &evs, Some(&pkt));
+        evs
+    }
+
     pub fn do_indication(&mut self, ctx: &mut Ctx, rng: &mut Rng) {
         let (attrs, _) = app_attrs(rng, 2);
         let _ = self.sim.send_indication(ctx, *rng.pick(&[1u16, 6, 7]), attrs, if rng.chance(1, 20) { 8 } else { 1024 });
